@@ -1,3 +1,4 @@
+import XPathV.Lemmas.FlatOrder
 import XPathV.Lemmas.PullProofs
 import XPathV.Model.Api
 import XPathV.Lemmas.Facts
@@ -74,5 +75,23 @@ theorem reported_node_and_counters (d : Doc) (cfg : ECfg) (cur : Ref) {f : Nat} 
     (h : PQ.select d cfg cur f q = (.yield n, q')) :
     ∃ x xs, rem d cfg cur q = x :: xs ∧ x.r = n ∧ q'.position = x.pos ∧ q'.depth = x.lvl ∧ rem d cfg cur q' = xs :=
   select_position d cfg cur h
+
+/-! ## Flat paths are in document order, without repetition -/
+
+/-- **flat paths**: a path made of child, attribute and self steps from one context node yields its
+nodes strictly increasing in document order — hence ordered and duplicate-free — for every
+well-formed document and every context node -/
+theorem flat_paths_sorted {d : Doc} (wf : WF d) (cfg : ECfg) (c : Ref) {p : Plan} (hp : FlatPlan p) (l : List Item)
+    (h : sel (F := F) d cfg p c = .ok l) :
+    (l.map (·.r)).Pairwise (fun a b => Ref.lt a b = true) ∧ (l.map (·.r)).Nodup :=
+  ⟨XPathV.flat_sorted wf cfg c hp l h, XPathV.flat_nodup wf cfg c hp l h⟩
+
+/-- a single descendant step (`descendant::t`, `//t` from the root) is in document order -/
+theorem single_descendant_sorted {d : Doc} (wf : WF d) (cfg : ECfg) (a : AxisInfo) (self : Bool) (i : Nat)
+    (hi : i < d.length) (c : Ref) (l l' : List Item)
+    (h : sel (F := F) d cfg (.descendant a self .context) (.node i) = .ok l)
+    (h' : sel (F := F) d cfg (.descendant a self .absolute) c = .ok l') :
+    (l.map (·.r)).Pairwise (fun a b => Ref.lt a b = true) ∧ (l'.map (·.r)).Pairwise (fun a b => Ref.lt a b = true) :=
+  ⟨XPathV.desc_sorted wf cfg a self i hi l h, XPathV.desc_abs_sorted wf cfg a self c l' h'⟩
 
 end XPathV.Theorems.C12
